@@ -149,6 +149,7 @@ func WithDecls(t *rapid.T, s *Spec) {
 			}
 		}
 	}
+	s.TagPrecLines(func() bool { return rapid.IntRange(0, 2).Draw(t, "prectag") == 0 }, pick)
 	for i := range s.NTs {
 		if rapid.IntRange(0, 2).Draw(t, "nttag") == 0 {
 			s.NTs[i].Tag = pick()
